@@ -105,6 +105,8 @@ def _unit_btp_btf(sizes, gamma_mode, alias, generic):
             for ranks in (None, [1, 1], [2, 1]):
                 ts = [T.SymTeam(ctx, S.rating_cls, i) for i in range(2)] if generic else _alias(game.mk_teams(ctx, S, sizes), alias)
                 res[(m, str(ranks))] = call(mod.rate, ts, ranks=ranks)
+                if generic:
+                    T.guard(res[(m, str(ranks))])
         for ranks in (None, [1, 1], [2, 1]):
             rp = {"kind": "c19_btp", "sizes": list(sizes), "ranks": ranks, "gamma": gamma_mode, "alias": alias}
             ctx.oblige(f"C19/BTP=BTF/two-teams[ranks={ranks}]@{shape}", game.compare_outcomes(res[("BradleyTerryFull", str(ranks))], res[("BradleyTerryPart", str(ranks))]),
